@@ -150,12 +150,23 @@ package deneb
 //@ func AsBeaconStateView(v, err0) (r, err)
 //@   trusted
 //@   ensures err == nil ==> r != nil
+// upgrade_to_deneb's payload header: every capella field carried over, the two new blob-gas fields zero (the header's view is
+// built from a raw record: recorded, like the fork record)
+//@ sort HdrRawD = ExecutionPayloadHeader
+//@ ghost n_dhdr_view int
+//@ ghost last_dhdr_view HdrRawD
+//@ func (s *ExecutionPayloadHeader) View() r
+//@   trusted
+//@   requires s != nil
+//@   assigns ghost(n_dhdr_view), ghost(last_dhdr_view)
+//@   ensures n_dhdr_view == old(n_dhdr_view) + 1 && last_dhdr_view == *s && r != nil
 //@ func UpgradeToDeneb(spec, epc, pre) (post, err)
 //@   property C14 C02
 //@   panics off
 //@   opt weakcalls
 //@   opt inline=closures
-//@   assigns anything, ghost(n_fork_view), ghost(last_fork_view)
+//@   assigns anything, ghost(n_fork_view), ghost(last_fork_view), ghost(n_dhdr_view), ghost(last_dhdr_view)
+//@   ensures header_carried@C02: err == nil && pre != nil ==> !pst_hdr_err_capella(pre) && !exhdr_raw_err_capella(pst_hdr_capella(pre)) && n_dhdr_view == old(n_dhdr_view) + 1 && (let h := exhdr_val_capella(pst_hdr_capella(pre)) in last_dhdr_view.ParentHash == h.ParentHash && last_dhdr_view.FeeRecipient == h.FeeRecipient && last_dhdr_view.StateRoot == h.StateRoot && last_dhdr_view.ReceiptsRoot == h.ReceiptsRoot && last_dhdr_view.LogsBloom == h.LogsBloom && last_dhdr_view.PrevRandao == h.PrevRandao && last_dhdr_view.BlockNumber == h.BlockNumber && last_dhdr_view.GasLimit == h.GasLimit && last_dhdr_view.GasUsed == h.GasUsed && last_dhdr_view.Timestamp == h.Timestamp && last_dhdr_view.BaseFeePerGas == h.BaseFeePerGas && last_dhdr_view.BlockHash == h.BlockHash && last_dhdr_view.TransactionsRoot == h.TransactionsRoot && last_dhdr_view.WithdrawalsRoot == h.WithdrawalsRoot && eqseq(last_dhdr_view.ExtraData, h.ExtraData) && last_dhdr_view.BlobGasUsed == 0 && last_dhdr_view.ExcessBlobGas == 0)
 //@   ensures err == nil ==> post != nil
 //@   ensures fork_record: err == nil && spec != nil && spec.SLOTS_PER_EPOCH != 0 && pre != nil ==> n_fork_view == old(n_fork_view) + 1 && last_fork_view.PreviousVersion == pst_fork_capella(pre).CurrentVersion && last_fork_view.CurrentVersion == spec.DENEB_FORK_VERSION && last_fork_view.Epoch == pst_slot_capella(pre) / spec.SLOTS_PER_EPOCH
 
